@@ -40,6 +40,8 @@ def check(run):
         _emitter(run, ci)
     _siblings(run, ints)
     _maps(run, classes['RayTransferEmitter'])
+    from ..cachekey import check_caches
+    check_caches(run, [m for k, m in prog.modules.items() if k.startswith('cherab.tools.raytransfer') and not k.endswith('#pxd')], 'C10-K')
 
 
 def _spec_stores(fn, sp):
